@@ -1,9 +1,8 @@
 #!/bin/sh
-# thorough tier of every check, one worker (own copy of /verif) per property, /repo read-only
+# parthorough.sh <workers> [ids...] : thorough tier of the given checks (default all), at most <workers> at a time,
+# each in its own copy of /verif (already built, so the copies do not rebuild), /repo read-only
+W=${1:-4}; shift
+IDS=${*:-01 02 03 04 05 06 07 08 09 10 11 12 13 14 15 16 17 18 19}
 mkdir -p /tmp/par
-for i in 01 02 03 04 05 06 07 08 09 10 11 12 13 14 15 16 17 18 19; do
-  rsync -a --delete --exclude seeded /verif/ /tmp/par/tverif$i/
-  ( cd /tmp/par/tverif$i && ./check C$i --tier thorough > /tmp/par/tlog$i.txt 2>&1 ) &
-done
-wait
-for i in 01 02 03 04 05 06 07 08 09 10 11 12 13 14 15 16 17 18 19; do grep -E "^\[C|^VIOLATION" /tmp/par/tlog$i.txt | tail -3; done
+printf '%s\n' $IDS | xargs -P "$W" -I{} sh -c 'rsync -a --delete --exclude seeded /verif/ /tmp/par/tverif{}/ && cd /tmp/par/tverif{} && ( time ./check C{} --tier thorough ) > /tmp/par/tlog{}.txt 2>&1'
+for i in $IDS; do grep -E "^\[C|^VIOLATION|^real" /tmp/par/tlog$i.txt | tail -4; done
